@@ -317,3 +317,38 @@ VP_HARNESS(h_dup)
   VP_WITNESS("a populated table duplicated");
 #endif
 }
+
+/* ---- C17: consulting calls on a refreshed topology write nothing ---------------------------------------------------------- */
+/* Every attribute claims CACHE_VALID (the state hwloc_topology_refresh leaves) while the environment says that objects are
+ * gone and the root cpuset shrank: a reader that refreshed anyway would drop targets/initiators (observable, also natively). */
+#ifndef RD
+#define RD 0     /* which reader: 0 get_value 1 get_best_target 2 get_best_initiator 3 get_targets 4 get_initiators */
+#endif
+VP_HARNESS(h_reader_pure)
+{
+  setup();
+  unsigned long root = vp_in64(); VP_ASSUME(root < 64);
+  hwloc_bitmap_from_ulong(ROOT.cpuset, root);
+  vp_exists = (unsigned) vp_in_range(0, 7);                      /* stale on purpose */
+  struct hwloc_internal_memattr_s *im = &ATTRS[X];
+  unsigned it0 = im->iflags;
+  struct hwloc_location l = loc_cpuset(bm(vp_in_range(0, 63)));
+  uint64_t v = 0; hwloc_obj_t best = NULL; struct hwloc_location bl; unsigned nr = 2; hwloc_obj_t tg[2] = { NULL, NULL }; uint64_t vals[2]; struct hwloc_location inits[2];
+  int r;
+#if RD == 0
+  r = hwloc_memattr_get_value(&T, X, &N0, &l, 0, &v);
+#elif RD == 1
+  r = hwloc_memattr_get_best_target(&T, X, &l, 0, &best, &v);
+#elif RD == 2
+  r = hwloc_memattr_get_best_initiator(&T, X, &N0, 0, &bl, &v);
+#elif RD == 3
+  r = hwloc_memattr_get_targets(&T, X, &l, 0, &nr, tg, vals);
+#else
+  r = hwloc_memattr_get_initiators(&T, X, &N0, 0, &nr, inits, vals);
+#endif
+  (void) r;
+  VP_CHECK(im->iflags == it0 && (ATTRS[0].iflags & HWLOC_IMATTR_FLAG_CACHE_VALID) && (ATTRS[1].iflags & HWLOC_IMATTR_FLAG_CACHE_VALID), "reader purity: validity flags untouched");
+  VP_CHECK(im->nr_targets == 2 && im->targets == TG && TG[0].obj == &N0 && TG[1].obj == &N2 && TG[0].nr_initiators == 2 && TG[1].nr_initiators == 1 && TG[0].initiators == I0 && TG[1].initiators == I1, "reader purity: a consulting call on a refreshed topology does not rebuild the target table");
+  VP_CHECK(I0[0].value == V[0] && I0[1].value == V[1] && I1[0].value == V[2] && w(I0[0].initiator.location.cpuset) == 0x1 && w(I0[1].initiator.location.cpuset) == 0x6 && w(I1[0].initiator.location.cpuset) == 0x1, "reader purity: initiators (values and cpusets) untouched");
+  VP_WITNESS_IF(vp_exists == 0 && root == 0x20, "a reader ran while every cached object is stale");
+}
